@@ -1,5 +1,5 @@
 """C19 - UDP flows: cap, stickiness skeleton, teardown exactly once, isolation skeleton."""
-import alias, guards, lib
+import alias, cover, guards, lib
 from mir import callee_of, op_place, pl_local, proj_fields
 
 MGR = "sozu_lib::protocol::udp::manager::UdpManager"
@@ -63,6 +63,16 @@ def run(F, chk):
             def drain_pred(bi, truth, atom):
                 return atom[0] == "place" and any(a.endswith("UdpManager") and f == "draining" for a, _, f in proj_fields(atom[1])) and truth is False
             e_drain = lib.edges_where(b, drain_pred)
+            if not (e_drain and lib.guarded_by(b, site["bb"], e_drain)):
+                # the drain state in another representation (enum, Option, ..): the field(s) the public is_draining()
+                # accessor reads, consulted by a switch one of whose outcomes excludes the insertion
+                acc = [q for q in F.paths() if q.startswith(MGR + "::") and q.endswith("::is_draining")]
+                dfields = set()
+                for q in acc:
+                    rd_, _ = cover.body_field_reads(lib.flat(F, F.body(q)), MGR)
+                    dfields |= {f for _, f in rd_}
+                if dfields:
+                    e_drain = lib.state_gates(b, site["bb"], dfields)
             e_cap = []
             for bi, f, t, atom in guards.bool_switches(b):
                 if atom[0] != "cmp":
@@ -110,6 +120,34 @@ def run(F, chk):
         else:
             re_.violation(key, ocd.where(fwd[0]), "datagrams of an already tracked flow only reach forward_on_existing_flow after the %s test: under drain or at the cap live flows are shed together with new ones" % sorted({n for _, n in dom}))
     ocd = ocd0
+    # ---------------- R-C19-f teardown isolation --------------------------
+    rf_ = chk.rule("R-C19-f", "T5", "closing a flow unmaps a table key only if that key still maps to this flow", floor=1)
+    cfb = lib.flat(F, mgr_fn(F, "close_flow"))
+    rf_.fn(cfb.path)
+    removes = [s_["bb"] for s_ in alias.field_touch(cfb, alias.Origins(cfb), MGR, "table")
+               if s_["kind"] == "call" and s_["direct"] and s_["callee"].endswith("::remove")]
+    def owned_pred(sb, truth, atom):
+        if atom[0] != "call":
+            return False
+        c = atom[1]
+        if not (c.endswith("PartialEq>::eq") or c.endswith("PartialEq::eq") or c.endswith("PartialEq>::ne") or c.endswith("PartialEq::ne")):
+            return False
+        want = c.endswith("eq")
+        if truth is not want:
+            return False
+        cs, fl = set(), set()
+        for a in atom[2]["args"]:
+            sl = guards.slice_of_operand(cfb, a)
+            cs |= sl["callees"]; fl |= {f for _, f in sl["fields"]}
+        return "table" in fl and any(x.endswith("::get") for x in cs)
+    own_edges = lib.edges_where(cfb, owned_pred)
+    if rf_.require(removes, "close_flow: no table.remove(..) found"):
+        for i, x in enumerate(sorted(removes)):
+            key = "%s|table.remove#%d behind table.get(key) == this flow" % (cfb.path, i)
+            if own_edges and lib.guarded_by(cfb, x, own_edges):
+                rf_.ok(key, cfb.where(x), "only on the edge where the key was found to map to the flow being closed")
+            else:
+                rf_.violation(key, cfb.where(x), "close_flow removes a table key without having established that it maps to the flow being closed: after an affinity-mode flip the key computed for this flow can be another live flow's key, which is silently unmapped (that client is then admitted as a second flow with a fresh backend)")
     # ---------------- R-C19-b stickiness skeleton -------------------------
     rb = chk.rule("R-C19-b", "T4+T5", "SelectBackend only at admission; backend_addr/backend_id written only in "
                   "on_backend_resolved behind phase==AwaitingBackend", floor=3)
@@ -118,13 +156,26 @@ def run(F, chk):
         for bi, si, s in lib.agg_sites(b, "protocol::udp::Output", "SelectBackend"):
             sel.append((b, bi))
     rb.require(sel, "no construction of Output::SelectBackend found")
+    sel_owned = []
     for b, bi in sel:
+        own = lib.owner_of(F, b, stop_at=(ocd.path,))
+        if own.path != b.path:
+            # built in a private helper of its single caller: examine it inside that caller
+            fb = lib.flat(F, own)
+            sel_owned += [(fb, x) for x, si, s in lib.agg_sites(fb, "protocol::udp::Output", "SelectBackend")]
+        else:
+            sel_owned.append((b, bi))
+    for b, bi in sel_owned:
         key = "%s|SelectBackend" % b.path
         rb.fn(b.path)
         if b.path != ocd.path:
             rb.violation(key, b.where(bi), "Output::SelectBackend constructed outside the admission path")
             continue
-        ins = [s["bb"] for _, s in writers["flows"] if _.path == b.path]
+        if b.inl:
+            ins = [s_["bb"] for s_ in alias.field_touch(b, alias.Origins(b), MGR, "flows")
+                   if s_["kind"] == "call" and s_["direct"] and any(s_["callee"].endswith(x) for x in INSERTERS)]
+        else:
+            ins = [s["bb"] for _, s in writers["flows"] if _.path == b.path]
         if ins and all(b.dominates(x, bi) for x in ins[:1]):
             rb.ok(key, b.where(bi), "dominated by the flows.insert at bb%d" % ins[0])
         else:
